@@ -17,6 +17,26 @@ def _focus(b):
     b["diff"] = keep
     return b
 
+EXOTIC = ["\x0c", "\x0b", "\x1c", "\x1d", "\x1e", "\x85", "\u2028", "\u2029", "\t", "\xa0", "\ufeff"]
+
+def exotic_part(ctx):
+    """Characters that some line-splitting routines treat as line breaks, inside comments and string literals: the line
+    numbers of what follows must not move (only LF and CRLF end a line)."""
+    from .. import dsdlio
+    import pydsdl
+    n = 0
+    for ch in EXOTIC:
+        for text, line in (("# head %s tail\nuint8 x # doc %s\n@print 3\n@assert false\n@sealed\n" % (ch, ch), 4),
+                           ("uint8 x\n@assert 'a%sb' != 'q'\n# c %s\n\nuint8 X = 300\n@sealed\n" % (ch, ch), 5)):
+            with dsdlio.Tree({"ns/A.1.0.dsdl": text}, "c17x") as tr:
+                status, res, prints = dsdlio.read_ns(tr.path("ns"))
+            n += 1
+            if status == "ok" or not isinstance(res, pydsdl.InvalidDefinitionError) or res.line != line or any(l != 3 for (_p, l, _t) in prints):
+                ctx.violation({"kind": "exotic-whitespace", "case": {"char": repr(ch), "text": text},
+                               "diff": [("error / print line", None if status == "ok" else getattr(res, "line", None), line, [l for (_p, l, _t) in prints])]})
+    ctx.count(n)
+    ctx.traces += n
+
 def run(ctx):
     ctx.rule = ("TLC enumerates line sequences with a faulty statement of every category (syntax, undefined identifier, "
                 "failed assertion, deferred attribute errors: bad constant, union field after _offset_, misplaced "
@@ -32,6 +52,7 @@ def run(ctx):
         plan = [("Stmt_errors_thorough.cfg", 2, False, 1), ("Stmt_all_thorough.cfg", 2, False, 1)]
     for cfg, nv, rt, sm in plan:
         stmt_replay.run_config(ctx, cfg, nv, rt, sm, focus=_focus)
+    exotic_part(ctx)
     try:
         from .. import reader_replay
     except ImportError:
